@@ -46,7 +46,7 @@ def run(rep, tier):
         rep.violation("uri/%s/%s/%s" % (r["v"]["form"], r["how"], what), {"id": vlib.cp_to_str(r["v"]["id"]), "event": vlib.cp_to_str(r["v"]["ev"]), "custom_action": vlib.cp_to_str(r["v"]["custom"]),
                                                               "text": vlib.cp_to_str(r["text"]), "record": r})
     rep.sample({"value": recs[100]["v"], "ruma_text": vlib.cp_to_str(recs[100]["text"])})
-    n = 60000 if thorough else 8000
+    n = 300000 if thorough else 8000
     _, out, _ = vlib.run_harness(["mutants", "c11", "--n", str(n)])
     summ = {}
     for ln in out.splitlines():
